@@ -14,6 +14,7 @@ use std::sync::Arc;
 
 mod alloc;
 mod casts;
+mod ext;
 mod fwd;
 mod generic;
 mod life;
@@ -58,6 +59,7 @@ fn main() {
             101 => shapes::run(&hdr[1..], &ops, &mut mon),
             102 => generic::run(&hdr[1..], &ops, &mut mon),
             104 => fwd::run(&hdr[1..], &ops, &mut mon),
+            105 => ext::run(&hdr[1..], &ops, &mut mon),
             106 => life::run(&hdr[1..], &ops, &mut mon),
             108 => casts::run(&hdr[1..], &ops, &mut mon),
             _ => vec![vec![-3]],
